@@ -75,6 +75,10 @@ func buildHarness1(scratch, flavour string, hooks bool) (string, map[string]inte
 	if out, err := exec.Command("cp", "-r", filepath.Join(verifDir, "harness"), hdir).CombinedOutput(); err != nil {
 		return "", info, fmt.Errorf("copy harness: %v %s", err, out)
 	}
+	if repoDir != "/repo" {
+		gm, _ := os.ReadFile(filepath.Join(hdir, "go.mod"))
+		os.WriteFile(filepath.Join(hdir, "go.mod"), []byte(strings.ReplaceAll(string(gm), "=> /repo", "=> "+repoDir)), 0o644)
+	}
 	bin := filepath.Join(scratch, "h")
 	t0 := time.Now()
 	args := []string{"build", "-overlay", ovPath, "-o", bin}
